@@ -37,6 +37,9 @@ impl MapExp for Expected {
                         }
                         _ => ast.clone(),
                     };
+                    if is_none(&ast) {
+                        return Expected::none(self.pos);
+                    }
 
                     Expression {
                         ast: ast.map(&|node: &Node| {
@@ -129,8 +132,17 @@ impl From<&Box<AST>> for Expected {
 
 impl From<&AST> for Expected {
     fn from(ast: &AST) -> Expected {
+        // None has no identity of its own: every occurrence is just the type None, so that what is
+        // learnt where one None is used (a nullable Int, say) is not carried over to the others.
+        if is_none(ast) {
+            return Expected::none(ast.pos);
+        }
         Expected::new(ast.pos, &Expression { ast: ast.clone() })
     }
+}
+
+fn is_none(ast: &AST) -> bool {
+    matches!(&ast.node, Node::Id { lit } if lit == NONE)
 }
 
 #[derive(Clone, Debug, PartialEq, Eq, Hash)]
